@@ -183,9 +183,12 @@ def _mk(mode, hz, dcache, icache, via=None):
     if via is None:
         via = "webgui" if _MADE[1] % 3 == 0 else "direct"
     if _WEBGUI[0] and via == "webgui":
-        sim = _WEBGUI[0]("".join(list("five_stage_pipeline" if mode == "five" else "single_stage_pipeline")), hz, cache_options(dcache), cache_options(icache))
-        sim._vp_via = "webgui"
-        return sim
+        try:
+            sim = _WEBGUI[0]("".join(list("five_stage_pipeline" if mode == "five" else "single_stage_pipeline")), hz, cache_options(dcache), cache_options(icache))
+            sim._vp_via = "webgui"
+            return sim
+        except Exception:
+            _WEBGUI[0] = False  # this tree's front-end constructor cannot be called this way: use the direct path only
     sim = _mk_direct(mode, hz, dcache, icache)
     sim._vp_via = "direct"
     return sim
